@@ -90,10 +90,10 @@ func VerifC17_concurrent() {
 	var list []string
 	var got2 Decoration
 	bodies := []func(){
-		func() { RegisterDecorationName(n1, d1) },
+		func() { RegisterDecorationName(vfFresh(n1), d1) },
 		func() { got = Named(n3) },
 		func() { list = RegisteredDecorationNames() },
-		func() { RegisterDecorationName(n2, d2) },
+		func() { RegisterDecorationName(vfFresh(n2), d2) },
 		func() { got2 = Named(n1) },
 	}
 	nt := 4
